@@ -1,2 +1,3 @@
 import RaftVerif.Model.RunLoop
+import RaftVerif.Proofs.Snapshot
 /-! # C18 — leadership notifications.  Registered: `RL.notify_alternates`. -/
